@@ -77,7 +77,9 @@ func (g *G) Entry() zapcore.Entry {
 	}
 	if r.P(1, 2) {
 		e.Caller = zapcore.EntryCaller{Defined: true, PC: uintptr(r.Intn(1 << 20)),
-			File:     rng.Pick(r, []string{"/home/u/go/src/pkg/file.go", "file.go", "pkg/file.go", "/a/b/c/d.go", "C:/x/y/z.go", g.Str()}),
+			File: rng.Pick(r, []string{"/home/u/go/src/pkg/file.go", "file.go", "pkg/file.go", "/a/b/c/d.go", "C:/x/y/z.go", g.Str(),
+				// separators at the very start and end, directly below the root, doubled, none
+				"/app/main.go", "/main.go", "//main.go", "a//b.go", "/", "//", "dir/", "/dir/", "x/y", "/x/y/", ""}),
 			Line:     rng.Pick(r, []int{0, 1, 42, 100000, -1}),
 			Function: rng.Pick(r, []string{"pkg.Func", "main.main", "a/b.(*T).M", "f"})}
 		if g.Opt.Hostile && r.P(1, 4) {
